@@ -48,6 +48,10 @@ func (vc *VC) readField(st *State, base Term, structT types.Type, f *types.Var) 
 		// typed memory: an integer field holds a value of its type
 		st.assume(vc.rangeFact(f.Type(), v))
 	}
+	if srt == SSlc && !strings.Contains(v.S, "q$") {
+		// typed memory: a slice field holds a slice (length is a non-negative int)
+		st.assume(vc.rangeFact(f.Type(), v))
+	}
 	return v
 }
 
